@@ -362,6 +362,38 @@ claim("C14", "S2",
       "C02/C03's ownership discipline.",
       "ast guard dominance + ownership + typestate signatures")
 
+claim("C16", "S1",
+      "Necessary clauses: signatures of debounce / throttle_with_mapper / throttle_first / sample equal the reference; "
+      "stale-timer guard (emission dominated by has_value and id == captured id; every source notification bumps the id); "
+      "flush on completion under the presence flag; throttle_first's inclusive `elapsed >= duration` with the emission "
+      "time recorded in the deciding branch; sample resets its presence flag when it emits.",
+      "Timing values for concrete timelines are NOT decided.",
+      "ast typestate signatures + guard dominance + comparator normalisation")
+
+claim("C17", "S1",
+      "Necessary clauses: signatures of the eight time-window operators equal the reference; boundary agreement — the "
+      "age-vs-duration comparisons of on_next and on_completed in take_last_with_time / skip_last_with_time answer 'is the "
+      "element of age exactly the duration emitted?' identically, and the two operators are complementary; timeout's "
+      "fallback switch is decided by id equality and every source notification invalidates the pending timer.",
+      "Timing values are NOT decided.",
+      "ast comparator normalisation (sibling agreement at equality) + guard dominance + typestate signatures")
+
+claim("C18", "S1",
+      "Necessary clauses: signatures of the window operators and group_join equal the reference; terminal fan-out "
+      "(sequences e*E / c*C on every path of the source's terminal handlers); every window handed downstream is add_ref'd "
+      "to the returned RefCountDisposable; each buffer_* is the same-named window_* with identical arguments followed by "
+      "flat_map(to_list).",
+      "Index/time arithmetic (which element falls in which window) is NOT decided.",
+      "ast typestate signatures + regular-language check on terminal paths + delegation/argument agreement")
+
+claim("C19", "S1",
+      "Necessary clauses: group_by_until signature equals the reference; one unconditional writer.on_next(element) with "
+      "the writer taken from / stored in the map under the computed key, at most one new group and one delivery per path; "
+      "expiry deletes the key and completes its writer; terminal fan-out; group_by = group_by_until + never(); partition's "
+      "second output is filtered by the syntactic negation of the predicate over one shared published source.",
+      "Key semantics and group contents are NOT decided.",
+      "ast typestate signatures + def-use of the writer map + negation-wrapper check")
+
 na("C15", "arithmetic over run-time timestamps (queue ordering by timestamp + duetime, 'exactly d later'); no structural "
           "clause that is both necessary and robust beyond ownership/guarding/falsy rules already decided under "
           "C02/C03/C08/C09, whose scope includes these files")
